@@ -61,8 +61,55 @@ def run_cli(args, cwd, timeout=120):
     """the real command line (argparse and all) in its own interpreter; the log file goes to cwd"""
     env = dict(os.environ)
     env["PYTHONPATH"] = str(REPO)
-    p = subprocess.run([PY, str(REPO / "suit_generator" / "cli.py")] + [str(a) for a in args], cwd=cwd, env=env, capture_output=True, text=True, timeout=timeout)
+    # paths below the working directory are written the ways users write them: absolute, relative ("out.hex", "sub/out.hex") or with a leading "./";
+    # the form is a function of the argument list, so a replay meets the same one
+    import zlib
+    args = [str(a) for a in args]
+    form = zlib.crc32(" ".join(args).encode()) % 3
+    cwd_abs = os.path.realpath(cwd)
+    if form:
+        def respell(a):
+            if os.path.isabs(a) and os.path.realpath(a).startswith(cwd_abs + os.sep):
+                rel = os.path.relpath(os.path.realpath(a), cwd_abs)
+                return rel if form == 1 else "./" + rel
+            return a
+        args = [respell(a) if i > 0 and args[i - 1].startswith("--") and not a.startswith("-") else a for i, a in enumerate(args)]
+    p = subprocess.run([PY, str(REPO / "suit_generator" / "cli.py")] + args, cwd=cwd, env=env, capture_output=True, text=True, timeout=timeout)
     return p.returncode, (p.stdout + p.stderr)[-1500:]
+
+
+def call_main(main, cwd, **kwargs):
+    """`main(**kwargs)` in-process the way a user invokes the command from a directory: path arguments that lie below `cwd` are given absolute, relative
+    ("out.hex", "sub/out.hex") or with a leading "./" - the form is a function of the arguments, so a replay meets the same one - with `cwd` as the
+    working directory.  Lists of paths and "URI,path" items are treated alike."""
+    import zlib
+    from pathlib import Path as _P
+    cwd_abs = os.path.realpath(cwd)
+    form = zlib.crc32(repr(sorted((k, str(v)) for k, v in kwargs.items())).encode()) % 3
+
+    def respell(a):
+        if isinstance(a, (list, tuple)):
+            return type(a)(respell(x) for x in a)
+        was_path = isinstance(a, _P)
+        t = str(a) if was_path else a
+        if not isinstance(t, str):
+            return a
+        prefix = ""
+        if "," in t and not os.path.isabs(t) and os.path.isabs(t.split(",", 1)[1]):
+            prefix, t = t.split(",", 1)[0] + ",", t.split(",", 1)[1]
+        if os.path.isabs(t) and os.path.realpath(t).startswith(cwd_abs + os.sep):
+            rel = os.path.relpath(os.path.realpath(t), cwd_abs)
+            t = rel if form == 1 else "./" + rel
+            return _P(t) if was_path else prefix + t
+        return a
+    old = os.getcwd()
+    try:
+        if form:
+            kwargs = {k: respell(v) for k, v in kwargs.items()}
+        os.chdir(cwd)
+        return main(**kwargs)
+    finally:
+        os.chdir(old)
 
 
 def spellings(n: int):
@@ -364,7 +411,21 @@ def finish(res: Result, st: StageA, rule: str, level_note: list[str], obligation
         lines.append(f"VIOLATION property={prop} replay={path}")
         violations += 1
     if not res.spec_failures:
-        if res.mismatches:
+        def _is_err(x):
+            return (isinstance(x, dict) and "err" in x) or (isinstance(x, str) and (x.startswith('{"err"') or x.endswith("Error") or x.endswith("Exit")))
+
+        def _is_ok(x):
+            return (isinstance(x, dict) and "ok" in x) or (isinstance(x, str) and (x == "ok" or x.startswith('{"ok"')))
+        refused = [m for m in res.mismatches if _is_err(m.get("impl")) and _is_ok(m.get("model"))]
+        if refused:
+            # the input itself is the failing input: the model - which is proved to meet the property - yields the output for it, the tool yields none
+            m = refused[0]
+            path = write_replay(prop, {"kind": "property-fails-on-implementation", "correspondence": m.get("op", "?"), "first_mismatch": m,
+                                       "what": "the tool refuses an input of the property's domain (the model, proved to meet the property, produces the output for it): "
+                                               "the property's conclusion cannot hold for this input", "refused_inputs": len(refused), "mismatches": len(res.mismatches)})
+            lines.append(f"VIOLATION property={prop} replay={path}")
+            violations += 1
+        elif res.mismatches:
             m = res.mismatches[0]
             path = write_replay(prop, {"kind": "correspondence-broken", "correspondence": m.get("op", "?"),
                                        "first_mismatch": m, "mismatches": len(res.mismatches),
